@@ -32,4 +32,17 @@ def npGather (arr : List Q) (idx : List Nat) : List Q := idx.map (fun i => arr.g
 /-- `a - b`, element by element -/
 def npSub (a b : List Q) : List Q := List.zipWith (fun x y => x - y) a b
 
+/-- `np.arange(1, n + 1)` -/
+def npArange1 (n : Nat) : List Nat := List.range' 1 n
+/-- an elementwise function of an integer array -/
+def npApply (f : Nat → Q) (xs : List Nat) : List Q := xs.map f
+/-- `np.maximum(a, c)` -/
+def npMaximumScalar (xs : List Q) (c : Q) : List Q := xs.map (fun x => max x c)
+/-- `np.reciprocal(a)` -/
+def npReciprocal (xs : List Q) : List Q := xs.map (fun x => 1 / x)
+/-- `np.dot(a, b)` of two vectors -/
+def npDot (a b : List Q) : Q := sumQ (List.zipWith (fun x y => x * y) a b)
+/-- `np.sum(a)` -/
+def npSum (xs : List Q) : Q := sumQ xs
+
 end LK.NpOps
